@@ -29,7 +29,7 @@ def main():
         rc, out = sh("go build ./... && go build -tags verif ./...", cwd=wt)
         if rc != 0:
             print("BUILD-FAILS", out[-400:]); return 2
-        rc, out = sh("go test -vet=off -count=1 $(go list ./... | grep -v internal/wordlists)", cwd=wt)
+        rc, out = (0, "") if "--fast" in sys.argv else sh("go test -vet=off -count=1 $(go list ./... | grep -v internal/wordlists)", cwd=wt)
         if rc != 0:
             print("EXISTING-TESTS-FAIL", out[-600:]); return 2
         env = dict(ENV, VERIF_REPO=wt)
